@@ -41,7 +41,15 @@
      C06_block_engine_instance             hence the conclusion of C06_abs_blind_engine for every engine whose nodes are block
                                            containers or leaves
      C06_block_resumption_runs_kernel      the in-flow part of the resumption, answered by any function, hands on exactly the
-                                           state and records of Model/Block.v `inflow_loop` (what C10's K2 runs) *)
+                                           state and records of Model/Block.v `inflow_loop` (what C10's K2 runs)
+   FLEX ALGORITHM as a resumption (Model/FlexAlg.v: all of compute_flexbox_layout over the engine interface; tied to the
+   implementation event by event, bit for bit, by `vh flexalg cases`):
+     C06_flex_algorithm_abs_blind          AbsBlind HOLDS for it (ab = box-generating and position:absolute; oeq / leq = equal up to
+                                           content_size): the container's output, and every query and stored layout addressed to a
+                                           non-absolute child, are independent of the absolute children's styles and of the answers to
+                                           the queries addressed to them -- no longer a premise for flex containers
+     C06_blockflex_engine_instance         hence the conclusion of C06_abs_blind_engine for every engine whose nodes are block containers,
+                                           flex containers or leaves *)
 From Coq Require Import List Bool Arith NArith ZArith Lia.
 From TV Require Import Num.Num Gen.BlockGen Model.Block Model.BlockLeaf Model.BlockTree Proofs.BlockBlind.
 From TV Require Import Model.FiltersBase Gen.FiltersGen Model.ItemFilters Proofs.ItemFiltersBase Proofs.ItemFiltersAbs Model.BlockAlg Proofs.BlockAlgBlind.
@@ -326,6 +334,45 @@ Theorem C06_block_resumption_query_inputs :
     bi_parent (child_input P it) = mkSize (Some (p_outer_width P)) None /\ bi_mode (child_input P it) = PerformLayout.
 Proof. intros T N P st it co A. apply child_input_is_recorded. exact A. Qed.
 
+(* ---------------------------------------------------------------------------------------------- the flex algorithm *)
+From TV Require Import Model.Common Model.Leaf Model.FlexAlgBase Model.FlexAlg Model.EngineLift Model.BlockFlexEngine.
+From TV Require Import Proofs.FlexAlgBlind Proofs.BlockFlexEngine.
+
+(* AbsBlind, spelled out: on two child-style lists that agree except at positions where both children are box-generating and
+   position:absolute (abmask st), the two resumptions are bisimilar up to content_size (ABis, Proofs/EngineAbs.v): Ret with outputs equal
+   up to content_size; the same Query (same input) / SetLayout (layouts equal up to content_size) to every other child, answer for answer up
+   to content_size; any traffic with the absolute children, whose answers are ignored by everything that follows *)
+Theorem C06_flex_algorithm_abs_blind :
+  forall (T : Type) (N : Num T),
+    AbsBlind (FStyle T) (FIn T) (LayoutOutput T) (FLay T) flex_alg f_visible_absolute fout_eq flay_eq /\
+    (forall o : LayoutOutput T, fout_eq o o) /\ (forall l : FLay T, flay_eq l l).
+Proof. intros T N. split; [apply flex_alg_abs_blind|]. split; [apply fout_eq_refl|apply flay_eq_refl]. Qed.
+
+(* engines made of block containers, flex containers and leaves (`kind` = the dispatch of TaffyView::compute_child_layout): two trees
+   that coincide up to content_size outside the subtrees of box-generating absolute nodes stay so through any pair of evaluations, and
+   every node that is not itself such a node returns the same output up to content_size *)
+Theorem C06_blockflex_engine_instance :
+  forall (T : Type) (N : Num T) (kind : BFStyle T -> NodeKind) (pre : BStyle T -> BIn T -> BIn T) (abs_child : @AbsChild T)
+         (leaf : BFStyle T -> FIn T -> LayoutOutput T)
+         (mode : FIn T -> Engine.RunMode) (in_eqb : FIn T -> FIn T -> bool) (is_none : BFStyle T -> bool)
+         (hidden_out : LayoutOutput T) (zero_lay : FLay T),
+    AbsChildLocal abs_child ->
+    let algo := blockflex_algo kind pre abs_child leaf in
+    forall f f' t t' i o t1 o' t1',
+      asim (BFStyle T) (FIn T) (LayoutOutput T) (FLay T) bf_visible_absolute fout_eq flay_eq t t' ->
+      memo (BFStyle T) (FIn T) (LayoutOutput T) (FLay T) mode in_eqb is_none hidden_out zero_lay algo f t i = Some (o, t1) ->
+      memo (BFStyle T) (FIn T) (LayoutOutput T) (FLay T) mode in_eqb is_none hidden_out zero_lay algo f' t' i = Some (o', t1') ->
+      asim (BFStyle T) (FIn T) (LayoutOutput T) (FLay T) bf_visible_absolute fout_eq flay_eq t1 t1' /\
+      (bf_visible_absolute (style_of (BFStyle T) (FIn T) (LayoutOutput T) (FLay T) t) = false -> fout_eq o o').
+Proof.
+  intros T N kind pre abs_child leaf mode in_eqb is_none hidden_out zero_lay Hloc algo f f' t t' i o t1 o' t1' Hs E E'.
+  eapply (C06_abs_blind_engine (BFStyle T) (FIn T) (LayoutOutput T) (FLay T) mode in_eqb is_none hidden_out zero_lay algo
+            bf_visible_absolute fout_eq flay_eq); eauto.
+  - apply fout_eq_refl.
+  - apply flay_eq_refl.
+  - apply blockflex_algo_abs_blind. exact Hloc.
+Qed.
+
 Print Assumptions C06_grid_never_placed.
 Print Assumptions C06_grid_estimate_absolute_refuted.
 Print Assumptions C06_grid_estimate_absolute_refuted_sibling.
@@ -343,3 +390,5 @@ Print Assumptions C06_block_engine_instance.
 Print Assumptions C06_block_resumption_runs_kernel.
 Print Assumptions C06_block_content_width_ignores_absolute.
 Print Assumptions C06_block_resumption_query_inputs.
+Print Assumptions C06_flex_algorithm_abs_blind.
+Print Assumptions C06_blockflex_engine_instance.
